@@ -37,7 +37,7 @@ impl Property for C20 {
     }
     fn tape_len(&self, tier: Tier) -> usize { tier.pick(250, 400) }
     fn cases(&self, tier: Tier) -> u32 { tier.pick(120_000, 3_000_000) }
-    fn required_labels(&self, _tier: Tier) -> Vec<&'static str> { vec!["fmt:anm", "fmt:std", "fmt:msg", "fmt:ecl", "sprite-ref", "script-ref", "sub-ref", "timeline-sub-ref", "instance-ref", "table-ref", "default-entry", "explicit-id", "decreasing-id", "dup-name-same-id", "forward-ref", "must-reject:unknown-name", "must-reject:conflict"] }
+    fn required_labels(&self, _tier: Tier) -> Vec<&'static str> { vec!["fmt:anm", "fmt:std", "fmt:msg", "fmt:ecl", "sprite-ref", "script-ref", "sub-ref", "timeline-sub-ref", "instance-ref", "table-ref", "default-entry", "explicit-id", "decreasing-id", "dup-name-same-id", "sprite-script-shared-name", "forward-ref", "must-reject:unknown-name", "must-reject:conflict"] }
     fn max_discard_fraction(&self) -> f64 { 0.1 }
 
     fn generate(&self, tape: &mut Tape, _tier: Tier, _known: &Known) -> Value {
@@ -89,9 +89,15 @@ impl Property for C20 {
                 }
                 // a conflicting redefinition hides the ids of that name: only distinct names are referenced
                 let nscripts = 1 + tape.below(4);
-                let script_names: Vec<String> = (0..nscripts).map(|i| format!("scr{}", i)).collect();
+                // a script may carry the name of a sprite (two different enums: an `n` argument means the sprite, an `N` argument the script)
+                let mut script_names: Vec<String> = vec![];
+                for i in 0..nscripts {
+                    let cands: Vec<String> = sprites.iter().map(|s| s["name"].as_str().unwrap().to_string()).filter(|n| !script_names.contains(n)).collect();
+                    if !cands.is_empty() && tape.chance(1, 4) { feats.push("sprite-script-shared-name"); script_names.push(tape.pick(&cands).clone()); } else { script_names.push(format!("scr{}", i)); }
+                }
                 let mut scripts_text: Vec<String> = vec![];
                 let mut refs: Vec<Value> = vec![];
+                let mut dup_script = false;
                 for i in 0..nscripts {
                     let mut body = format!("    ins_200(@blob=\"{}\");\n", marker_blob(i + 1));
                     for _ in 0..tape.below(4) {
@@ -112,6 +118,7 @@ impl Property for C20 {
                     }
                     let num = match tape.below(4) { 0 => format!("{} ", tape.below(20)), _ => String::new() };
                     let dup = bad == Some("conflict") && i > 0 && tape.chance(1, 3);
+                    if dup { dup_script = true; }
                     scripts_text.push(format!("script {}{} {{\n{}}}\n", num, if dup { &script_names[0] } else { &script_names[i] }, body));
                 }
                 // interleave: scripts are spread over the entries
@@ -122,7 +129,7 @@ impl Property for C20 {
                     let take = if e + 1 == entries_text.len() { scripts_text.len() - si } else { tape.below(scripts_text.len() - si + 1) };
                     for _ in 0..take { text.push_str(&scripts_text[si]); si += 1; }
                 }
-                json!({"fmt": "anm", "game": game, "text": text, "sprites": sprites, "refs": refs, "feats": feats, "bad": bad})
+                json!({"fmt": "anm", "game": game, "text": text, "sprites": sprites, "refs": refs, "feats": feats, "bad": bad, "dup_script": dup_script})
             }
             4 | 5 => {
                 // STD
@@ -213,7 +220,7 @@ impl Property for C20 {
         for f in case["feats"].as_array().cloned().unwrap_or_default() { ctx.label(f.as_str().unwrap_or("").to_string()); }
         let refs = case["refs"].as_array().cloned().unwrap_or_default();
         let unknown_used = refs.iter().any(|r| r["name"].as_str().map_or(false, |n| n.to_lowercase().starts_with("nosuch")));
-        let conflict = case["bad"] == "conflict" && (text.lines().filter(|l| l.starts_with("script ") && l.ends_with(" scr0 {")).count() > 1 || {
+        let conflict = case["bad"] == "conflict" && (case["dup_script"] == true || text.lines().filter(|l| l.starts_with("script ") && l.ends_with(" scr0 {")).count() > 1 || {
             // a sprite name defined with two different ids
             let sp = case["sprites"].as_array().cloned().unwrap_or_default();
             sp.iter().any(|a| sp.iter().any(|b| a["name"] == b["name"] && a["id"] != b["id"]))
